@@ -164,6 +164,21 @@ func subjects(thorough bool) []subject {
 		s, _ := structpb.NewStruct(map[string]any{"k": "v"})
 		return s
 	})
+	// plain messages whose sub-message size caches are stale (measured, then a sub-message changed its size): the
+	// dispatcher must hand them to the runtime in a way that re-measures them
+	add("plain/googlev2/Value-measured-then-element-grown", clsV2, func() any {
+		l, _ := structpb.NewList([]any{"a", 2.0})
+		v := structpb.NewListValue(l)
+		_ = proto.Size(v)
+		l.Values[0] = structpb.NewStringValue(strings.Repeat("b", 40))
+		return v
+	})
+	add("plain/googlev2/DescriptorProto-marshaled-then-nested-renamed", clsV2, func() any {
+		d := &descriptorpb.DescriptorProto{Name: proto.String("M"), NestedType: []*descriptorpb.DescriptorProto{{Name: proto.String("N")}}}
+		_, _ = proto.Marshal(d)
+		d.NestedType[0].Name = proto.String(strings.Repeat("N", 200))
+		return d
+	})
 	add("plain/googlev2/StringValue128", clsV2, func() any { return wrapperspb.String(strings.Repeat("x", 128)) })
 	add("plain/googlev2/FileDescriptorProto", clsV2, func() any {
 		return &descriptorpb.FileDescriptorProto{Name: proto.String("a.proto"), Dependency: []string{"b", "c"}, MessageType: []*descriptorpb.DescriptorProto{{Name: proto.String("M")}}}
